@@ -14,6 +14,29 @@ from . import arrays
 from .arrays import lift, from_seq, copy, elementwise, prod, MaskSel
 
 
+class StrArr:
+    """arr.astype(str): only ever joined into a command string"""
+    def __init__(self, arr):
+        self.arr = arr
+
+
+class SplitList:
+    """np.split(a, np.arange(c, n, c)): consecutive chunks of c elements, the last one possibly shorter"""
+    def __init__(self, arr, c):
+        self.arr = arr
+        self.c = c
+        n = tonum(arr.shape[0])
+        self.sym_len = z3.If(n > 0, (n + c - 1) / c, 1)
+
+    def sym_item(self, k):
+        n = tonum(self.arr.shape[0])
+        c = self.c
+        ln = z3.If((k + 1) * c <= n, z3.IntVal(c), n - k * c)
+        a = self.arr
+        out = Arr([z3.simplify(ln)], lambda idx: a.elem((k * c + tonum(idx[0]),)), a.kind, prov=a.prov, view=True, np_dtype=a.np_dtype)
+        return out
+
+
 class DType:
     def __init__(self, kind, name=None):
         self.kind = kind
@@ -340,8 +363,10 @@ def call_pymeth(ex, o, name, args, kw):
                 return getattr(o, name)(*args)
         if name == 'join':
             a = args[0]
+            if isinstance(a, StrArr):
+                return FStr([(('join', o, a.arr), None)])
             if isinstance(a, Arr):
-                return FStr([('join', o, a)])
+                return FStr([(('join', o, a), None)])
             items = ex.iterate(a)
             parts = []
             for i, x in enumerate(items):
@@ -423,6 +448,9 @@ def arr_attr(ex, a, attr):
 
 def call_arrmeth(ex, a, name, args, kw):
     if name == 'astype':
+        from .interp import BI
+        if args and isinstance(args[0], BI) and args[0].n == 'str':
+            return StrArr(a)
         d = as_dtype(args[0] if args else kw.get('dtype'))
         out = copy(a, d.kind)
         out.np_dtype = d.name
@@ -1199,3 +1227,22 @@ def rnd_randn(ex, *shape):
 @ext('numpy.uint8', 'numpy.int64', 'numpy.float64')
 def np_scalar_type(ex, v):
     return v
+
+
+@ext('numpy.split')
+def np_split(ex, a, sections, axis=0):
+    a = _arr(ex, a)
+    meta = getattr(sections, 'meta', None) if isinstance(sections, Arr) else None
+    if a.ndim == 1 and meta and 'arange' in meta:
+        start, step = meta['arange']
+        if conc(start) == conc(step) and isinstance(conc(step), int) and conc(step) > 0:
+            # np.arange(c, n, c) must stop at the array length for the chunks to cover the array exactly
+            cnt = sections.shape[0]
+            n = tonum(a.shape[0])
+            c = conc(step)
+            want = z3.If(n > c, (n - c + c - 1) / c, 0)
+            if ex.entails(tonum(cnt) == want):
+                return SplitList(a, c)
+    if isinstance(sections, np.ndarray) and isinstance(getattr(a, 'concrete', None), np.ndarray):
+        return [lift(x) for x in np.split(a.concrete, sections)]
+    raise Unsupported('np.split with unstructured section indices')
